@@ -78,6 +78,34 @@ def ladder(src, modname, coqname):
     return out
 
 
+def fn_body2(src, name):
+    """like trlib.fn_body but tolerant of `;` inside the signature (array types)"""
+    m = re.search(r'\bfn\s+%s\b' % re.escape(name), src)
+    if not m:
+        lost(G, 'fn ' + name)
+        return ''
+    i, depth = m.end(), 0
+    while i < len(src):
+        c = src[i]
+        if c in '([<':
+            depth += 1
+        elif c in ')]>' and not (c == '>' and src[i - 1] == '-'):
+            depth -= 1
+        elif c == '{' and depth <= 0:
+            break
+        elif c == ';' and depth <= 0:
+            return ''
+        i += 1
+    j, d = i + 1, 1
+    while j < len(src) and d:
+        if src[j] == '{':
+            d += 1
+        elif src[j] == '}':
+            d -= 1
+        j += 1
+    return src[i + 1:j - 1]
+
+
 def enclosing_fn(src, pos):
     best = None
     for m in re.finditer(r'\bfn\s+(\w+)', src[:pos]):
@@ -256,7 +284,7 @@ def generate(repo):
     methods = {}
     for mm in re.finditer(r'\n    (pub(?:\([^)]*\))?\s+)?(?:async\s+)?fn\s+(\w+)', impl):
         name = mm.group(2)
-        methods[name] = fn_body(impl[mm.start():], name, G)
+        methods[name] = fn_body2(impl[mm.start():], name)
     writes = {n for n, b in methods.items() if re.search(r'\.add_from\(|\.update\(|\.remove\(|\.delete\(|\.set\(', b)}
     changed = True
     while changed:
